@@ -23,6 +23,7 @@
  R7 channel order  : SpectralInformation re-orders every per-channel array (CD, PMD, PDL, latency included) with one argsort;
                      mux / demux build every field of the result from the same-named field of the operands (shared with C01-R2).
  Rn arg roles     : a variable named like a parameter of the callee is handed to that parameter (no exchanged roles).
+ R8 ref point      : f_ref x lambda_ref = c for every input form (value graph of FiberParams.__init__).
 """
 import ast
 
@@ -509,6 +510,14 @@ def rn_arg_roles(ctx):
     ctx.check('Rn.arg-roles', 'argument / parameter name scan', True, 'C05|arg-roles-scan', '', f'{n} argument(s) named like another parameter judged')
 
 
+def r8_ref_point(ctx):
+    """R8: the fibre's reference point is one point (f_ref x lambda_ref = c for every way it can be given): dispersion and loss
+    tables are evaluated against the frequency the user gave"""
+    from .common import ref_pair_rule
+    ref_pair_rule(ctx, 'R8.ref-point', 'the chromatic dispersion would be computed around another reference frequency')
+    ctx.need('R8.ref-point', 2)
+
+
 from ..memo import rule_for as _memo_rule
 
 RULES_MEMO = ('Rm.memo', _memo_rule('C05', 'the loss or dispersion of another fibre configuration would be applied'))
@@ -518,4 +527,4 @@ from ..presence import rule_for as _presence_rule
 
 RULES_PRESENCE = ('Rp.presence', _presence_rule('C05', 'a fibre parameter of exactly 0 would be replaced by a default'))
 
-RULES = [('R4.cd', r4_cd), ('R1.once', r1_once), ('R2.budget', r2_budget), ('R3.accumulators', r3_accumulators), RULES_MEMO, RULES_PRESENCE, ('Rk.field-key', rk_field_key), ('Ru.units', ru_units), ('Rs.sorted-abscissa', rs_sorted), ('R5.lumped-once', r5_lumped_once), ('R6.lumped-all', r6_lumped_all), ('R7.channel-order', r7_channel_order), ('Rn.arg-roles', rn_arg_roles)]
+RULES = [('R4.cd', r4_cd), ('R1.once', r1_once), ('R2.budget', r2_budget), ('R3.accumulators', r3_accumulators), RULES_MEMO, RULES_PRESENCE, ('Rk.field-key', rk_field_key), ('Ru.units', ru_units), ('Rs.sorted-abscissa', rs_sorted), ('R5.lumped-once', r5_lumped_once), ('R6.lumped-all', r6_lumped_all), ('R7.channel-order', r7_channel_order), ('Rn.arg-roles', rn_arg_roles), ('R8.ref-point', r8_ref_point)]
